@@ -481,6 +481,15 @@ def enum(ctx):
         return
     ed = resolved_struct_fields(f, ed, 'EnumDefinition')
     ty = strip(ed['type_'])
+    # the enum's own doc text is the doc of its own attribute list (C17), handed on as it is
+    d0 = strip(ed.get('doc', ('x',)))
+    hops_ = 0
+    while d0[0] == 'var' and len(f.defs().get(d0[1], [])) == 1 and not (1 <= d0[1] <= f.nargs) and hops_ < 4:
+        d0, hops_ = strip(f.expr_of_def(f.defs()[d0[1]][0])), hops_ + 1
+    dcall = unwrap_all(d0)
+    okdoc = is_call(dcall, 'Attributes::doc') and dcall[2] and strip(dcall[2][0])[0] == 'field' and strip(dcall[2][0])[2] == 'attributes' and \
+        strip(strip(dcall[2][0])[1])[0] in ('arg', 'var') and not any(isinstance(y, tuple) and y and y[0] == 'payload' for y in walk(strip(dcall[2][0])))
+    ctx.ob(['C17'], 'R-SLP', 'EB|doc-from-own-attributes', okdoc, 'EnumDefinition.doc is Attributes::doc of the definition\'s own attribute list, unchanged: %s' % show(d0)[:100], where)
     # D3 (C02): size and alignment of the base type
     def pure_call(e, name):
         # the value is the call itself (possibly unwrapped / given an error context), nothing computed on top of it
